@@ -449,8 +449,11 @@ class Interp:
             ev(name, idx, 'close_ok')
         # --- resources
         elif op in ('borrow', 'claim'):
-            src = self.handles[st['from']] if st.get('from') else self.resources[st['r']]
-            ev(name, idx, 'acquiring', st['amounts'])
+            src = self.handles.get(st['from']) if st.get('from') else self.resources[st['r']]
+            if src is None:
+                ev(name, idx, 'nohandle')
+                return None
+            ev(name, idx, 'acquiring', (st['amounts'], dict(src.levels)))
             phase = ['acquiring']
             try:
                 ctx = src.borrow(**st['amounts']) if op == 'borrow' else src.claim(**st['amounts'])
@@ -473,7 +476,11 @@ class Interp:
                 ev(name, idx, 'released', st['amounts'])
         elif op in ('increase', 'decrease', 'rset'):
             r = self.resources[st['r']]
-            ev(name, idx, op + '_begin', st['amounts'])
+            before = dict(r.levels)
+            if op == 'decrease' and any(before[k] < v for k, v in st['amounts'].items()):
+                ev(name, idx, 'decrease_skipped', (st['amounts'], before))   # a valid program checks first
+                return None
+            ev(name, idx, op + '_begin', (st['amounts'], before))
             await getattr(r, 'set' if op == 'rset' else op)(**st['amounts'])
             ev(name, idx, op + '_ok', st['amounts'])
         elif op == 'levels':
@@ -598,7 +605,7 @@ def _unraisable(u):
     NOISE[0] += 1
 
 
-def execute(prog, probe=None, wall=60, faults=(), sample=False):
+def execute(prog, probe=None, wall=60, faults=(), sample=False, observe=None):
     """Run a program on the real usim.  Returns (interp, outcome, exc, probe).
 
     faults: [{'k': activation boundary, 'target': task name, 'token': [...]}]: before
@@ -618,12 +625,14 @@ def execute(prog, probe=None, wall=60, faults=(), sample=False):
     till = prog.get('till')
     probe = probe or Probe()
     it.probe = probe
-    if faults or sample:
+    if faults or sample or observe:
         by_k = {}
         for f in faults:
             by_k.setdefault(f['k'], []).append(f)
 
         def before(k, loop, it=it, by_k=by_k):
+            if observe is not None:
+                observe(it, k, loop)
             if sample:
                 it.samples.append((k, loop.time, it.seq,
                                    {n: (t.status.name, bool(t.done)) for n, t in it.tasks.items()}))
